@@ -153,3 +153,13 @@ package util
 //@   modifies nothing
 //@   ensures[private-copies] len(result) == len(strList) && isfresh(result) && forall i int :: 0 <= i && i < len(strList) ==> result[i] == strList[i] && !shared(result[i])
 //@   loop 1: invariant -1 <= rangeindex && rangeindex < len(strList) && len(destList) == len(strList) && isfresh(destList) && forall i int :: 0 <= i && i <= rangeindex ==> destList[i] == strList[i] && !shared(destList[i])
+
+// ==== digest used to disambiguate queue directory names (C06). Trusted: MD5 as an (uninterpreted) function of the content;
+// that two different ids have different 8-digit suffixes is an assumption no contract can discharge. ===========================
+//@ pure func md5hex(k int) string
+//@ ghost var lasthashed string
+//@ func MD5ToHexdigest(content string) string
+//@   property C06
+//@   flag contract
+//@   modifies lasthashed
+//@   ensures lasthashed === content && result == md5hex(key(content)) && len(result) == 32
